@@ -141,13 +141,6 @@ Proof.
       constructor; [exact K1 | eapply IH; eauto].
 Qed.
 
-Lemma stretch_auto_keeps box d : 0 <= d -> forall ts sizes,
-  Forall2 (keeps box) ts sizes -> Forall2 (keeps box) ts (stretch_auto d ts sizes).
-Proof.
-  intros Hd. induction 1 as [|t s ts sizes K1 K2 IH]; cbn [stretch_auto]; constructor; [|exact IH].
-  destruct t; cbn in *; try exact K1. lra.
-Qed.
-
 Lemma Forall2_length' {A B} (R : A -> B -> Prop) l l' : Forall2 R l l' -> length l' = length l.
 Proof. induction 1; cbn; congruence. Qed.
 
@@ -196,15 +189,7 @@ Proof.
   destruct (flex_expand ff ts sizes1 infl free2) as [sizes3 free3] eqn:E3.
   pose proof (flex_expand_keeps box ff _ _ _ _ _ _ K1 L2 E3) as K3.
   intros H. inversion H; subst out. clear H.
-  assert (K4 : Forall2 (keeps box) ts
-                 (if stretch && (if Qlt_le_dec 0 free3 then true else false) && negb (Nat.eqb (length (filter is_fr ts)) 0)
-                  then stretch_auto (free3 / inject_Z (Z.of_nat (length (filter is_fr ts)))) ts sizes3 else sizes3)).
-  { destruct (stretch && (if Qlt_le_dec 0 free3 then true else false) && negb (Nat.eqb (length (filter is_fr ts)) 0)) eqn:C;
-      [|exact K3].
-    apply stretch_auto_keeps; [|exact K3]. apply andb_true_iff in C as [C C2]. apply andb_true_iff in C as [_ C1].
-    destruct (Qlt_le_dec 0 free3); [|discriminate]. apply negb_true_iff, Nat.eqb_neq in C2.
-    apply Qle_shift_div_l; [|lra]. change 0 with (inject_Z 0). rewrite <- Zlt_Qlt. lia. }
-  exact (keeps_out _ _ _ K4).
+  exact (keeps_out _ _ _ K3).
 Qed.
 
 (* all sizes are non-negative when the inputs are *)
@@ -284,15 +269,6 @@ Proof.
         assert (0 <= ff * f0) by nra. split; [constructor; [lra | exact A] | lra].
 Qed.
 
-Lemma stretch_auto_closed box ff d : forall ts sizes,
-  Forall2 (fun t s' => match t with TFr g _ => fst s' == ff * g | _ => fst s' == base_of box t end) ts sizes ->
-  Forall2 (fun t s' => match t with TFr g _ => fst s' == ff * g + d | _ => fst s' == base_of box t end) ts
-          (stretch_auto d ts sizes).
-Proof.
-  induction 1 as [|t s ts sizes K Ks IH]; cbn [stretch_auto]; constructor; [|exact IH].
-  destruct t; cbn in *; try exact K. lra.
-Qed.
-
 Lemma closed_out box ff u e e' : ff == u -> e == e' -> forall ts (sizes4 : list (Q * Q)),
   Forall2 (fun t s' => match t with TFr g _ => fst s' == ff * g + e | _ => fst s' == base_of box t end) ts sizes4 ->
   Forall2 (fun t o => o == match t with TFr f _ => f * u + e' | _ => base_of box t end) ts (map fst sizes4).
@@ -309,17 +285,14 @@ Definition free_space (ts : list track) (box gap : Q) : Q :=
   box - qsum (map (base_of box) ts) - (qlen ts - 1) * gap.
 
 (* the closed form of _resolve_tracks_sizes for fr tracks without content and positive free space F:
-   u = F / max(1, sum of factors); an fr track f gets f * u, plus (step 1.5, justify/align-content normal or
-   stretch) an equal share e of what is left when the factors sum to less than 1 *)
+   u = F / max(1, sum of factors); an fr track f gets f * u, whatever the content distribution (step 1.5 only
+   stretches tracks whose max sizing function is auto) *)
 Theorem tracks_closed_form ts box gap stretch out :
   Forall plain ts -> 0 < free_space ts box gap ->
   resolve_tracks ts box gap stretch = Some out ->
   let F := free_space ts box gap in
   let u := F / Qmax 1 (fr_sum ts) in
-  let R := F - u * fr_sum ts in
-  let e := if stretch && negb (Nat.eqb (length (filter is_fr ts)) 0)
-           then (if Qlt_le_dec 0 R then R / nfrQ ts else 0) else 0 in
-  Forall2 (fun t o => o == match t with TFr f _ => f * u + e | _ => base_of box t end) ts out.
+  Forall2 (fun t o => o == match t with TFr f _ => f * u + 0 | _ => base_of box t end) ts out.
 Proof.
   intros Hp HF. unfold resolve_tracks. destruct ts as [|t0 ts']; [discriminate|]. set (ts := t0 :: ts') in *.
   assert (Hne : ts <> []) by discriminate. clearbody ts. clear t0 ts'.
@@ -358,17 +331,20 @@ Proof.
     assert (lft == F) as -> by lra. reflexivity. }
   intros H. inversion H; subst out. clear H. cbv zeta.
   set (u := F / Qmax 1 (fr_sum ts)) in *. set (ff := lft / Qmax 1 fsum) in *.
-  assert (ER : free3 == F - u * fr_sum ts) by (rewrite F3, Eu; lra).
-  set (nz := negb (Nat.eqb (length (filter is_fr ts)) 0)).
-  destruct stretch; cbn [andb].
-  - destruct (Qlt_le_dec 0 free3) as [P | P]; cbn [andb]; destruct nz eqn:Enz.
-    + apply (fun Ee => closed_out box ff u _ _ Eu Ee ts _ (stretch_auto_closed box ff _ _ _ C3)).
-      destruct (Qlt_le_dec 0 (F - u * fr_sum ts)) as [P' | P']; [|exfalso; lra]. unfold nfrQ. rewrite ER. reflexivity.
-    + apply (fun Ee => closed_out box ff u 0 _ Eu Ee ts _ (closed_plus0 box ff _ _ C3)). reflexivity.
-    + apply (fun Ee => closed_out box ff u 0 _ Eu Ee ts _ (closed_plus0 box ff _ _ C3)).
-      destruct (Qlt_le_dec 0 (F - u * fr_sum ts)) as [P' | P']; [exfalso; lra | reflexivity].
-    + apply (fun Ee => closed_out box ff u 0 _ Eu Ee ts _ (closed_plus0 box ff _ _ C3)). reflexivity.
-  - apply (fun Ee => closed_out box ff u 0 _ Eu Ee ts _ (closed_plus0 box ff _ _ C3)). reflexivity.
+  apply (fun Ee => closed_out box ff u 0 _ Eu Ee ts _ (closed_plus0 box ff _ _ C3)). reflexivity.
+Qed.
+
+Lemma Forall2_impl {A B} (R R' : A -> B -> Prop) l l' : (forall a b, R a b -> R' a b) -> Forall2 R l l' -> Forall2 R' l l'.
+Proof. intros H. induction 1; constructor; auto. Qed.
+
+Theorem tracks_closed ts box gap stretch out :
+  Forall plain ts -> 0 < free_space ts box gap ->
+  resolve_tracks ts box gap stretch = Some out ->
+  let u := free_space ts box gap / Qmax 1 (fr_sum ts) in
+  Forall2 (fun t o => o == match t with TFr f _ => f * u | _ => base_of box t end) ts out.
+Proof.
+  intros Hp HF H u. pose proof (tracks_closed_form ts box gap stretch out Hp HF H) as C. cbv zeta in C. fold u in C.
+  clearbody u. revert C. apply Forall2_impl. intros t o R. destruct t; try exact R. rewrite R. lra.
 Qed.
 
 (* ------------------------------------------------------------------------------------------ corollaries *)
@@ -390,97 +366,56 @@ Proof. induction 1 as [|t o ts out R Rs IH]; [reflexivity|]. cbn [map]. rewrite 
 Lemma nfrQ_pos ts : (1 <= length (filter is_fr ts))%nat -> 0 < nfrQ ts.
 Proof. intros H. unfold nfrQ. change 0 with (inject_Z 0). rewrite <- Zlt_Qlt. lia. Qed.
 
-(* fixed, percentage and fr tracks together with the gaps fill the container exactly as soon as one fr track
-   exists, the free space is positive, and either the factors sum to at least 1 or the content distribution is
-   normal/stretch (then step 1.5 hands the remainder to the fr tracks) *)
+(* fixed, percentage and fr tracks together with the gaps fill the container exactly when the free space is positive
+   and the fr factors sum to at least 1 *)
 Theorem tracks_partition_container ts box gap stretch out :
-  Forall plain ts -> 0 < free_space ts box gap -> (1 <= length (filter is_fr ts))%nat ->
-  1 <= fr_sum ts \/ stretch = true ->
+  Forall plain ts -> 0 < free_space ts box gap -> 1 <= fr_sum ts ->
   resolve_tracks ts box gap stretch = Some out ->
   qsum out + (qlen ts - 1) * gap == box.
 Proof.
-  intros Hp HF Hn Hc H. pose proof (tracks_closed_form ts box gap stretch out Hp HF H) as C. cbv zeta in C.
+  intros Hp HF Hc H. pose proof (tracks_closed_form ts box gap stretch out Hp HF H) as C. cbv zeta in C.
   set (F := free_space ts box gap) in *. set (u := F / Qmax 1 (fr_sum ts)) in *.
-  match type of C with Forall2 (fun t o => o == match t with TFr f _ => f * u + ?ee | _ => _ end) _ _ => set (e := ee) in * end.
-  rewrite (out_sum box u e ts out C), (closed_sum box u e ts Hp).
-  pose proof (nfrQ_pos ts Hn) as Hq. pose proof (fr_sum_nonneg ts Hp) as Hs.
-  assert (Enz : negb (Nat.eqb (length (filter is_fr ts)) 0) = true) by (apply negb_true_iff, Nat.eqb_neq; lia).
-  assert (Key : u * fr_sum ts + e * nfrQ ts == F).
-  { subst e. rewrite Enz, andb_true_r. destruct (Qlt_le_dec 1 (fr_sum ts)) as [G | G].
-    - assert (Em : Qmax 1 (fr_sum ts) == fr_sum ts) by (apply Q.max_r; lra).
-      assert (Eu : u * fr_sum ts == F) by (subst u; rewrite Em; field; lra).
-      destruct stretch; [|lra]. destruct (Qlt_le_dec 0 (F - u * fr_sum ts)); lra.
-    - destruct (Qeq_dec (fr_sum ts) 1) as [E1 | N1].
-      + assert (Em : Qmax 1 (fr_sum ts) == 1) by (rewrite E1; apply Q.max_id).
-        assert (Eu : u * fr_sum ts == F) by (subst u; rewrite Em, E1; field).
-        destruct stretch; [|lra]. destruct (Qlt_le_dec 0 (F - u * fr_sum ts)); lra.
-      + assert (Em : Qmax 1 (fr_sum ts) == 1) by (apply Q.max_l; lra).
-        assert (Eu : u == F) by (subst u; rewrite Em; field).
-        destruct Hc as [Hc | ->]; [exfalso; apply N1; lra|]. cbn [andb].
-        destruct (Qlt_le_dec 0 (F - u * fr_sum ts)) as [P | P].
-        * assert ((F - u * fr_sum ts) / nfrQ ts * nfrQ ts == F - u * fr_sum ts) as -> by (field; lra). lra.
-        * exfalso. rewrite Eu in P. assert (fr_sum ts < 1) by (destruct (Qlt_le_dec (fr_sum ts) 1); [assumption | exfalso; apply N1; lra]). nra. }
-  unfold F, free_space in Key. lra.
+  rewrite (out_sum box u 0 ts out C), (closed_sum box u 0 ts Hp).
+  assert (Em : Qmax 1 (fr_sum ts) == fr_sum ts) by (apply Q.max_r; lra).
+  assert (Eu : u * fr_sum ts == F) by (subst u; rewrite Em; field; lra).
+  unfold F, free_space in Eu. lra.
 Qed.
 
 (* css-grid 12.7.1: with factors summing to less than 1 the fr tracks take only that fraction of the free space;
-   the model agrees when the content distribution is not normal/stretch *)
-Theorem tracks_small_factors_leave_space ts box gap out :
+   whatever the content distribution *)
+Theorem tracks_small_factors_leave_space ts box gap stretch out :
   Forall plain ts -> 0 < free_space ts box gap -> fr_sum ts < 1 ->
-  resolve_tracks ts box gap false = Some out ->
+  resolve_tracks ts box gap stretch = Some out ->
   qsum out + (qlen ts - 1) * gap == box - free_space ts box gap * (1 - fr_sum ts).
 Proof.
-  intros Hp HF Hs H. pose proof (tracks_closed_form ts box gap false out Hp HF H) as C. cbv zeta in C. cbn [andb] in C.
+  intros Hp HF Hs H. pose proof (tracks_closed_form ts box gap stretch out Hp HF H) as C. cbv zeta in C.
   set (F := free_space ts box gap) in *. set (u := F / Qmax 1 (fr_sum ts)) in *.
   rewrite (out_sum box u 0 ts out C), (closed_sum box u 0 ts Hp).
   assert (Em : Qmax 1 (fr_sum ts) == 1) by (apply Q.max_l; lra).
   assert (Eu : u == F) by (subst u; rewrite Em; field). rewrite Eu. unfold F, free_space. lra.
 Qed.
 
-(* fr tracks are proportional to their factors, unless step 1.5 stretches tracks whose factors sum to less than 1 *)
+(* fr tracks are proportional to their factors *)
 Theorem fr_proportional ts box gap stretch out :
-  Forall plain ts -> 0 < free_space ts box gap -> 1 <= fr_sum ts \/ stretch = false ->
+  Forall plain ts -> 0 < free_space ts box gap ->
   resolve_tracks ts box gap stretch = Some out ->
   forall i j fi bi fj bj oi oj,
     nth_error ts i = Some (TFr fi bi) -> nth_error ts j = Some (TFr fj bj) ->
     nth_error out i = Some oi -> nth_error out j = Some oj -> oi * fj == oj * fi.
 Proof.
-  intros Hp HF Hc H. pose proof (tracks_closed_form ts box gap stretch out Hp HF H) as C. cbv zeta in C.
+  intros Hp HF H. pose proof (tracks_closed_form ts box gap stretch out Hp HF H) as C. cbv zeta in C.
   set (F := free_space ts box gap) in *. set (u := F / Qmax 1 (fr_sum ts)) in *.
-  match type of C with Forall2 (fun t o => o == match t with TFr f _ => f * u + ?ee | _ => _ end) _ _ => set (e := ee) in * end.
-  assert (Ee : e == 0).
-  { subst e. destruct Hc as [Hc | ->]; [|reflexivity]. destruct (stretch && _); [|reflexivity].
-    destruct (Qlt_le_dec 0 (F - u * fr_sum ts)) as [P | P]; [|reflexivity]. exfalso.
-    assert (Em : Qmax 1 (fr_sum ts) == fr_sum ts) by (apply Q.max_r; lra).
-    assert (Eu : u * fr_sum ts == F) by (subst u; rewrite Em; field; lra). lra. }
+  set (e := 0) in C. assert (Ee : e == 0) by reflexivity.
   assert (G : forall k f b o, nth_error ts k = Some (TFr f b) -> nth_error out k = Some o -> o == f * u).
   { clearbody e u. clear - C Ee. induction C as [|t o tl ol R Rs IH]; intros k f b o' Ht Ho; [destruct k; discriminate|].
     destruct k as [|k]; cbn in Ht, Ho; [inversion Ht; inversion Ho; subst; rewrite R, Ee; lra | eauto]. }
   intros i j fi bi fj bj oi oj Ti Tj Oi Oj. rewrite (G _ _ _ _ Ti Oi), (G _ _ _ _ Tj Oj). lra.
 Qed.
 
-(* ---- refutations: step 1.5 treats fr tracks as `auto` tracks *)
-(* grid-template-columns: 0.25fr 0.5fr in 300px, justify-content normal: css-grid gives 75 and 150 (75 left over);
-   the model (and the code) hand the 75 left over to the two tracks: 112.5 and 187.5, no longer in ratio 1:2 *)
-Theorem fr_proportional_refuted :
-  exists ts box gap out, Forall plain ts /\ 0 < free_space ts box gap /\
-    resolve_tracks ts box gap true = Some out /\
-    exists oi oj, nth_error out 0 = Some oi /\ nth_error out 1 = Some oj /\ ~ oi * (1 # 2) == oj * (1 # 4).
-Proof.
-  exists [TFr (1 # 4) 0; TFr (1 # 2) 0], 300, 0. eexists.
-  split; [repeat constructor; cbn; lra|]. split; [vm_compute; reflexivity|]. split; [vm_compute; reflexivity|].
-  eexists. eexists. split; [reflexivity|]. split; [reflexivity|]. vm_compute. discriminate.
-Qed.
-
-Theorem tracks_small_factors_leave_space_refuted :
-  exists ts box gap out, Forall plain ts /\ 0 < free_space ts box gap /\ fr_sum ts < 1 /\
-    resolve_tracks ts box gap true = Some out /\
-    ~ qsum out + (qlen ts - 1) * gap == box - free_space ts box gap * (1 - fr_sum ts).
-Proof.
-  exists [TFr (1 # 4) 0; TFr (1 # 4) 0], 300, 0. eexists.
-  split; [repeat constructor; cbn; lra|]. split; [vm_compute; reflexivity|]. split; [vm_compute; reflexivity|].
-  split; [vm_compute; reflexivity|]. vm_compute. discriminate.
-Qed.
+(* fixed in /repo (F74): grid-template-columns: 0.25fr 0.5fr in 300px, justify-content normal: 75 and 150, 75 left over *)
+Example tracks_small_factors_example :
+  exists out, resolve_tracks [TFr (1 # 4) 0; TFr (1 # 2) 0] 300 0 true = Some out /\ Forall2 Qeq out [75; 150].
+Proof. eexists. split; [vm_compute; reflexivity | repeat (constructor; [vm_compute; reflexivity|]); constructor]. Qed.
 
 (* ---- examples: the hypotheses are satisfiable *)
 Example tracks_example :
@@ -494,18 +429,16 @@ Example tracks_example_hyps :
   Forall plain [TLen 100; TFr 1 0; TFr 2 0] /\ 0 < free_space [TLen 100; TFr 1 0; TFr 2 0] 300 10 /\
   1 <= fr_sum [TLen 100; TFr 1 0; TFr 2 0].
 Proof. split; [repeat constructor; cbn; lra|]. split; vm_compute; [reflexivity | discriminate]. Qed.
-(* F-i  a track with content: 1fr 1fr 3fr in 300px, the first track holds a 90px block.  css-grid 12.7.1 step 4
-   freezes that track and RESTARTS (fr size 210/4 = 52.5: tracks 90, 52.5, 157.5 = 300).  grid.py restarts only when
-   `free_space <= 0` (`stop = free_space > 0`): the fr size stays 300/5 = 60 and the tracks overflow the container *)
-Theorem tracks_partition_with_content_refuted :
-  exists ts box gap out, Forall track_nonneg ts /\ 0 < free_space ts box gap /\ 1 <= fr_sum ts /\
-    resolve_tracks ts box gap true = Some out /\ Forall2 Qeq out [90; 60; 180] /\ box < qsum out + (qlen ts - 1) * gap.
+(* fixed in /repo (F75): a track with content: 1fr 1fr 3fr in 300px, the first track holds a 90px block.  The 1.4 loop
+   freezes that track and restarts (css-grid 12.7.1): fr size 210/4 = 52.5, tracks 90, 52.5, 157.5 = 300, and the
+   css-grid reference algorithm of the specification (css_resolve) gives the same sizes *)
+Example tracks_refreeze_example :
+  exists out, resolve_tracks [TFr 1 90; TFr 1 0; TFr 3 0] 300 0 true = Some out /\
+    Forall2 Qeq out [90; 105 # 2; 315 # 2] /\ qsum out == 300 /\
+    spec_axis_content [TFr 1 90; TFr 1 0; TFr 3 0] 300 0 out = true.
 Proof.
-  exists [TFr 1 90; TFr 1 0; TFr 3 0], 300, 0. eexists.
-  split; [repeat (constructor; [cbn; split; vm_compute; discriminate|]); constructor|].
-  split; [vm_compute; reflexivity|]. split; [vm_compute; discriminate|].
-  split; [vm_compute; reflexivity|].
-  split; [repeat (constructor; [vm_compute; reflexivity|]); constructor | vm_compute; reflexivity].
+  eexists. split; [vm_compute; reflexivity|].
+  split; [repeat (constructor; [vm_compute; reflexivity|]); constructor | split; vm_compute; reflexivity].
 Qed.
 
 (* ================================================================================ 3.5 positions, 4 rectangles *)
